@@ -287,3 +287,23 @@ ADDED10 = {
 for _pid, _extra in ADDED10.items():
     t, text, note, ref = CLAIMED[_pid]
     CLAIMED[_pid] = (t, text + _extra, note, ref)
+
+ADDED11 = {
+ "C01": " Round 11: eval_ast hands its form back unevaluated only where the form is known to be no list, vector or hash-map; the binder compares a parameter's name with no constant but &; the = builtin's element comparison decides a branch in its loop (C14.all-elements, C14.entry adopted); the closure built by fn is examined through a builder function of the package.",
+ "C03": " Round 11: C01.binds adopted as C03.catch-binds (the catch symbol is bound whatever its name).",
+ "C04": " Round 11: the zero value of a closure type returned beside an error is no constructor.",
+ "C06": " Round 11: READ answers only what Read_str answered; PRINT returns Pr_str(argument, true) unchanged; a collection reader's own error is allowed only when decided by counts.",
+ "C07": " Round 11: the function stored in MalFunc.Eval is EVAL or a wrapper of its signature that calls it (what the wrapper passes on falls under C07.derive: a function with a context of its own hands on that one).",
+ "C09": " Round 11: the deref builtin makes one Deref call, outside any loop, and returns its result; an atom of the headers that is read twice in one body only ever grows (every swap! on it adds to the current value itself).",
+ "C10": " Round 11: future-done? and future-cancelled? return IsDone() / IsCancelled() as they are.",
+ "C12": " Round 11: macro expansion (and the macro test) happens only at the top of the evaluation loop and in the macroexpand form.",
+ "C13": " Round 11: the collection builtins bind and test the sequence accessor's error wherever the argument is not already known to be a list or vector; a set/map builder does not judge its items by the size of the table built (C06.key-content adopted).",
+ "C14": " Round 11: the outcome of each element comparison decides a branch inside the loop (it is not merely carried to the next lap).",
+ "C15": " Round 11: PRINT returns the printer's text unchanged (C06.print-entry shared); the blank-line and line-shape rules follow a strings.Builder and a line-building helper.",
+ "C16": " Round 11: the atom reader is called by the dispatcher only, after the token was compared with every opening bracket; the error of reading a preamble value never becomes READWithPreamble's answer.",
+ "C17": " Round 11: no function reachable from evaluation stores an empty, freshly allocated Position as a form's Cursor; the scanner's position is read when the token is built, not carried round the scanning loop.",
+ "C19": " Round 11: C06.one-escaper adopted (keys and members are printed through the one quoting routine); no (load-file …) form built by the module's Go code is quoted with %q / strconv.Quote.",
+}
+for _pid, _extra in ADDED11.items():
+    t, text, note, ref = CLAIMED[_pid]
+    CLAIMED[_pid] = (t, text + _extra, note, ref)
